@@ -5,7 +5,7 @@ cd "$(dirname "$0")/.."
 name="$1"; shift
 res=""
 for p in "$@"; do
-  out=$(timeout 5400 tools/mutate.sh seeded/$name/patch.diff $p 2>/dev/null | grep -E "^VIOLATION|^KNOWN" | head -3)
+  out=$(timeout 5400 tools/mutate.sh seeded/$name/patch.diff $p 2>/dev/null | grep -E "^VIOLATION" | head -3)
   if echo "$out" | grep -q "^VIOLATION"; then
     if echo "$out" | grep "^VIOLATION" | grep -qv "no-failing-input-found"; then v="caught with failing input"; else v="caught (proof/correspondence broken, no-failing-input-found)"; fi
   else v="MISSED"; fi
